@@ -148,7 +148,8 @@ class Interface:
 
             def at(i):
                 k = t.app('map_key', t.VAL, m.ident, i)
-                return VTuple([VDyn(k), self.map_value_pure(m, t.app('map_get', t.VAL, m.ident, k))])
+                kv = VStr(t.app('sval', t.STR, k)) if getattr(m, 'keys', 'dyn') == 'str' else VDyn(k)
+                return VTuple([kv, self.map_value_pure(m, t.app('map_get', t.VAL, m.ident, k))])
             return [(st, VIter('seq', n=n, at=at))]
         raise OutOfReach('dict.%s on a construct mapping' % name)
 
@@ -207,14 +208,25 @@ class Interface:
         if isinstance(key, VStr) and key.t is not None:
             return key.t
         if isinstance(key, VDyn):
+            if st.known(t.app('(_ is VStr)', t.BOOL, key.t)) is True:
+                return t.app('sval', t.STR, key.t)
             return None
         return None
 
+    def dyn_key(self, eng, key, st):
+        """a key of unknown type: (string payload, Bool 'is a str').  Non-string keys (None for unnamed members) are never
+        present in a context / result container built by the library"""
+        return t.app('sval', t.STR, key.t), t.app('(_ is VStr)', t.BOOL, key.t)
+
     def container_read(self, eng, ref, o, key, st, missing):
         kt = self.key_term(eng, key, st)
-        if kt is None:
+        if kt is None and isinstance(key, VDyn):
+            kt, isstr = self.dyn_key(eng, key, st)
+            has = t.and_(isstr, self.hhas(st, o.addr, kt))
+        elif kt is None:
             raise OutOfReach('container key %r' % (key,))
-        has = self.hhas(st, o.addr, kt)
+        else:
+            has = self.hhas(st, o.addr, kt)
         a, b = eng.fork(st, has)
         out = []
         if a is not None:
@@ -237,13 +249,26 @@ class Interface:
 
     def container_set(self, eng, ref, o, key, v, st, how):
         kt = self.key_term(eng, key, st)
+        if kt is None and isinstance(key, VDyn):
+            kt, isstr = self.dyn_key(eng, key, st)
+            a, b = eng.fork(st, isstr)
+            out = []
+            if a is not None:
+                self.hset(a, o.addr, kt, eng.to_dyn(v, a))
+                out.append((a, NONE))
+            if b is not None:
+                out.extend(eng.raise_(b, 'Unmodelled', origin='container store with a non-string key'))
+            return out
         if kt is None:
-            raise OutOfReach('container store key %r' % (key,))
+            raise OutOfReach('container store key %r' % (str(key)[:80],))
         self.hset(st, o.addr, kt, eng.to_dyn(v, st))
         return [(st, NONE)]
 
     def container_contains(self, eng, ref, o, item, st):
         kt = self.key_term(eng, item, st)
+        if kt is None and isinstance(item, VDyn):
+            kt, isstr = self.dyn_key(eng, item, st)
+            return [(st, VBool(t.and_(isstr, self.hhas(st, o.addr, kt))))]
         if kt is None:
             raise OutOfReach('container membership key')
         return [(st, VBool(self.hhas(st, o.addr, kt)))]
@@ -252,10 +277,14 @@ class Interface:
         o = st.get(ref)
         if name == 'get':
             kt = self.key_term(eng, args[0], st)
-            if kt is None:
-                raise OutOfReach('container.get key')
             d = args[1] if len(args) > 1 else NONE
-            has = self.hhas(st, o.addr, kt)
+            if kt is None and isinstance(args[0], VDyn):
+                kt, isstr = self.dyn_key(eng, args[0], st)
+                has = t.and_(isstr, self.hhas(st, o.addr, kt))
+            elif kt is None:
+                raise OutOfReach('container.get key')
+            else:
+                has = self.hhas(st, o.addr, kt)
             val = t.ite(has, self.hget(st, o.addr, kt), eng.to_dyn(d, st))
             return [(st, VDyn(val))]
         raise OutOfReach('Container.%s' % name)
@@ -265,6 +294,21 @@ class Interface:
         return st.alloc(OContainer(t.app('ref', t.INT, v.t)), 'container'), t.app('(_ is VRef)', t.BOOL, v.t)
 
     def dyn_getattr(self, eng, v, attr, st):
+        if attr in ('decode', 'rstrip', 'startswith') or attr in ('encode', 'split', 'strip', 'replace', 'lower'):
+            bytes_side = attr in ('decode', 'rstrip')
+            tester = '(_ is VBytes)' if bytes_side else '(_ is VStr)'
+            a, b = eng.fork(st, t.app(tester, t.BOOL, v.t))
+            out = []
+            if a is not None:
+                if bytes_side:
+                    recv = VBytes(t.app('barr', t.ARR, v.t), t.app('boff', t.INT, v.t), t.app('blen', t.INT, v.t))
+                    a.assume(t.ge(recv.len, t.ZERO))
+                else:
+                    recv = VStr(t.app('sval', t.STR, v.t))
+                out.append((a, VFunc(attr, bound=recv, model=('model', lambda m, e, ar, kw, s, n, _r=recv, _a=attr: e.call_method(_r, _a, ar, kw, s, n)))))
+            if b is not None:
+                out.extend(eng.raise_(b, 'AttributeError', origin='method %s of a value of another type' % attr))
+            return out
         ref, isref = self.dyn_container(eng, v, st)
         a, b = eng.fork(st, isref)
         out = []
@@ -377,6 +421,8 @@ class Interface:
                 p.const = VBytes(t.var('const_%s_arr' % p.name, t.ARR), t.ZERO, t.var('const_%s_len' % p.name, t.INT))
             elif p.pkind == 'none':
                 p.const = NONE
+            elif p.pkind == 'str':
+                p.const = VStr(t.var('const_%s' % p.name, t.STR))
             else:
                 p.const = VDyn(t.var('const_%s' % p.name, t.VAL))
         return p.const
@@ -423,6 +469,9 @@ class Interface:
         if p.pkind == 'bytes':
             st.assume(t.app('(_ is VBytes)', t.BOOL, v))
             st.assume(t.ge(t.app('blen', t.INT, v), t.ZERO))
+            return VDyn(v)
+        if p.pkind == 'str':
+            st.assume(t.app('(_ is VStr)', t.BOOL, v))
             return VDyn(v)
         return VDyn(v)
 
@@ -494,9 +543,25 @@ class Interface:
         return None
 
     def call_dyn(self, eng, f, args, kws, st, node):
-        raise OutOfReach('call of a value of unknown type')
+        """calling a value of unknown type (a user-supplied object): outside the properties (user callbacks); the result is
+        unknown and any Exception may be raised"""
+        prelude.declare_fun('dyn_callable', [t.VAL], t.BOOL)
+        a, b = eng.fork(st, t.app('dyn_callable', t.BOOL, f.t))
+        out = []
+        if b is not None:
+            out.extend(eng.raise_(b, 'TypeError', origin='calling a non-callable value'))
+        if a is not None:
+            a2 = a.clone()
+            ec = fresh('user_exc', t.INT)
+            a2.assume(eng.exc_sub_term(ec, 'Exception'))
+            out.append((a2, Raised(VExc(ec, NONE, origin='user callable raised'))))
+            out.append((a, VDyn(fresh('user_result', t.VAL))))
+        return out
 
     def call_uncontracted(self, eng, qual, selfv, args, kws, st, node):
+        if qual.endswith(':HexDisplayedInteger.new'):
+            # display subclass of int: modelled as its base value
+            return [(st, args[0])]
         return None
 
     def super_call(self, eng, attr, node, st):
@@ -545,6 +610,9 @@ class Interface:
         return [(st, st.alloc(OContainer(r), 'container'))]
 
     def builtin(self, eng, name, args, kws, st, node):
+        return None
+
+    def list_comprehension(self, eng, node, st):
         return None
 
     def len(self, eng, v, st):
